@@ -145,6 +145,7 @@ def run(idx: ProgramIndex, rep: Report, tier: str):
     from .common_enum import enumeration_obligations
     enumeration_obligations(idx, rep, "C02-5", [idx.find_class("ExactMarginalLogLikelihood").lookup("_add_other_terms")], floor=9)
     grad_state(idx, rep)
+    enumerators_once(idx, rep)
 
 
 def _other_terms(idx: ProgramIndex, cls: ClassInfo) -> Tuple[FuncInfo, List[str], Affine]:
@@ -485,3 +486,44 @@ def grad_state(idx: ProgramIndex, rep: Report):
         ok = decorated or explicit
         rep.add("C02-6", "%s:LazyEvaluatedKernelTensor.%s[grad state]" % (mod.name, name), fi.where, ok, ("evaluates the kernel under recall_grad_state" if decorated else "fixes the grad mode itself around the kernel call") if ok else "evaluates the kernel without recall_grad_state: its result depends on the grad mode of the caller", {})
     rep.floor("C02-6", "kernel-evaluating methods of the lazy kernel tensor", n, 3)
+
+
+# ---- C02-7 ---------------------------------------------------------------------------------------------------------
+def enumerators_once(idx: ProgramIndex, rep: Report):
+    """'+ the log prior density of every parameter that has a registered prior': every parameter once.  The registries are enumerated by
+    recursive walks over named_children(); a module object that is reachable on two paths (one base kernel inside two scale kernels)
+    is visited twice unless the walk threads a memo through the recursion.  Sibling rule: every recursive enumerator in
+    gpytorch/module.py takes a memo, tests membership before yielding / descending, and passes the same memo down."""
+    rep.rule("C02-7", "the recursive registry enumerators (priors, constraints, added loss terms, pyro samplers) thread a memo through the recursion: an entry reachable on several module paths is yielded once")
+    mod = idx.modules[idx.package + ".module"]
+    n = 0
+    for fi in sorted(idx.all_functions(), key=lambda f: f.qualname):
+        if fi.module is not mod or fi.cls is not None:
+            continue
+        rec = [c for c in calls_in(fi.node) if chain(c.func) == fi.name]
+        walks = any(isinstance(c.func, ast.Attribute) and c.func.attr == "named_children" for c in calls_in(fi.node))
+        if not rec or not walks:
+            continue
+        # only walks whose result depends on how often a module is visited: generators (one entry per visit) and the pyro samplers (one
+        # sample statement per visit); idempotent setters such as _set_strict may visit a shared module twice
+        is_gen = any(isinstance(x, (ast.Yield, ast.YieldFrom)) for x in ast.walk(fi.node))
+        if not is_gen and "pyro" not in fi.name:
+            continue
+        n += 1
+        params = [a.arg for a in fi.node.args.args + fi.node.args.kwonlyargs]
+        memo = next((p for p in params if "memo" in p or "seen" in p or "visited" in p), None)
+        probs = []
+        if memo is None:
+            probs.append("no memo parameter: the walk cannot know what it has already visited")
+        else:
+            tested = any(isinstance(x, ast.Compare) and any(isinstance(o, (ast.In, ast.NotIn)) for o in x.ops) and any(isinstance(c_, ast.Name) and c_.id == memo for c_ in x.comparators) for x in ast.walk(fi.node))
+            delegated = any(isinstance(c.func, ast.Attribute) and any((isinstance(a, ast.Name) and a.id == memo) or False for a in list(c.args) + [k.value for k in c.keywords]) and chain(c.func) != fi.name for c in calls_in(fi.node))
+            passed = all(any((isinstance(a, ast.Name) and a.id == memo) for a in list(c.args) + [k.value for k in c.keywords]) for c in rec)
+            if not tested and not delegated:
+                probs.append("the memo `%s` is never consulted (`x in %s`)" % (memo, memo))
+            if not passed:
+                probs.append("the recursive call does not pass `%s` on: every subtree starts with an empty memo" % memo)
+        rep.add("C02-7", "%s:%s" % (fi.module.name, fi.qualname), fi.where, not probs,
+                "memo threaded through the recursion and consulted" if not probs else
+                "; ".join(probs) + ": an entry of a module that two parents share is enumerated once per path (a shared kernel's prior is added twice to the objective)", {})
+    rep.floor("C02-7", "recursive registry enumerators", n, 4)
